@@ -1623,6 +1623,8 @@ class CTypesManagerNotPacked(CTypesManager):
     def union_compute_align_size(self, align_max, size):
         """Compute the alignment and size of the current union
         (not packed)"""
+        if align_max > 1:
+            size = (size + align_max - 1) & ~(align_max - 1)
         return align_max, size
 
 
